@@ -28,12 +28,6 @@ Proof.
 Qed.
 
 (* ------------------------------------------------------------------ lines *)
-Fixpoint no_lfb (s : string) : bool :=
-  match s with
-  | EmptyString => true
-  | String c r => negb (Ascii.eqb c LF) && no_lfb r
-  end.
-
 Definition unlines (ls : list string) : string := sconcat (map (fun l => l ++ nl) ls).
 
 Lemma unlines_app : forall a b, unlines (a ++ b)%list = unlines a ++ unlines b.
